@@ -238,7 +238,9 @@ def _float_operands():
     vals = []
     for x in (-32769.5, -32769.0, -32768.75, -32768.5, -32768.49, -32768.0, -32767.5, -1.5, -0.5,
               0.49, 0.5, 1.5, 2.5, 32766.5, 32767.0, 32767.49, 32767.5, 32768.0, 40000.0, 65535.0,
-              65535.4, 65535.5, 65536.0, 1e10, -1e10, 1.7e38):
+              65535.4, 65535.5, 65536.0, 1e10, -1e10, 1.7e38,
+              # doubles closer to a half than a single can tell (the expected value follows the bytes actually stored)
+              2.4999999999, -2.4999999999, 32767.4999999, -32768.4999999):
         vals.append(x)
     return vals
 
